@@ -291,7 +291,9 @@ CODES = {1: 'the model rejects the recorded schedule (a label was not enabled: e
          4: 'the model\'s linearisation events differ from the stamped ones (time, key, or the set of deleted keys)',
          5: 'an observed outcome (handler calls, acks, inner Publish, return value) differs from mw_run / dec_run',
          6: 'the number of IsDuplicate calls of a thread does not fit what the model expects', 7: 'thread counts differ',
-         8: 'Len() of the repository at the end differs from the model\'s map'}
+         8: 'Len() of the repository at the end differs from the model\'s map',
+         9: 'Clients.compile differs from the program of IsDuplicate calls the replay expects',
+         10: 'the messages given to the handler / inner publisher differ from Clients.delivered on the observed answers'}
 
 def check_conc(pid, name, cases, res):
     mapped = []
@@ -308,16 +310,18 @@ def check_conc(pid, name, cases, res):
             res.violations.append(dict(signature='C14/never-expires', what='keys are still remembered 15 s after the last call (window %.0f ms): an expired key is never accepted again' % (case['w_ns'] / 1e6),
                                        case=describe_conc(case)))
         labels, events, answers, problems, contended, stats = map_conc(case)
-        for pr in problems:
-            res.mismatches.append(dict(kind='C14 stamp mapping: ' + pr, case=describe_conc(case, stats)))
-        if problems:
-            continue
+        # a mapping problem (e.g. clock readings out of order) makes the schedule replay meaningless, but
+        # never masks a verdict: the acceptors still judge the stamped events of such a case
+        prob_recs = [dict(kind='C14 stamp mapping: ' + pr, case=describe_conc(case, stats)) for pr in problems]
+        res.mismatches += prob_recs
+        case['_problems'] = (problems, prob_recs)
         thr = [op_terms(t) for t in case['threads']]
         term = '(CC %s %s %s %s %s %s %s %s %d)' % (
             Z(case['w_ns']), Z(case['t0_ns']), C.coq_bool(FIXED), C.coq_list([a for a, _ in thr]), C.coq_list(labels),
             C.coq_list([C.coq_list([C.coq_bool(b) for b in a]) for a in answers]), C.coq_list(events),
             C.coq_list([b for _, b in thr]), case['len_end'])
         mapped.append((case, term, contended, stats))
+    searched = []
     for part, chunk in enumerate(C.chunks(mapped, 12)):
         r = C.coq_eval(pid, '%s_%d' % (name, part), HEADER + 'Definition cases : list conc_case := %s.\n' % C.coq_list([t for _, t, _, _ in chunk]),
                        [('R_mis', 'conc_mismatches cases'), ('R_vio', 'conc_violations cases'), ('R_stat', 'map conc_stats cases')])
@@ -329,22 +333,51 @@ def check_conc(pid, name, cases, res):
                 res.nontrivial.add(('conc', case['mode'], case['hasher'], len(case['threads']), dups, reacc, removed, contended > 0))
             res.extra.setdefault('concurrent', dict(cases=0, replayed=0, contended_cases=0, cases_with_racers_queued_behind_a_fresh_insert_of_their_key=0, duplicate_answers=0, keys_deleted=0, reaccepted_keys=0, sweeps=0))
             cc = res.extra['concurrent']
-            cc['cases'] += 1; cc['replayed'] += 0 if i in mis and 1 in mis[i] else 1
+            cc['cases'] += 1; cc['replayed'] += 0 if (i in mis and 1 in mis[i]) or case.get('_problems', ([], []))[0] else 1
             cc['contended_cases'] += 1 if contended else 0; cc['cases_with_racers_queued_behind_a_fresh_insert_of_their_key'] += 1 if case.get('_samekey') else 0; cc['duplicate_answers'] += dups
             cc['keys_deleted'] += removed; cc['reaccepted_keys'] += reacc; cc['sweeps'] += stats['sweeps']
             codes = vio.get(i, [])
+            problems, prob_recs = case.get('_problems', ([], []))
+            if problems:
+                st = dict(st, stamp_mapping_problems=problems[:5])
+                for pr in prob_recs:
+                    pr['explained_by_violation'] = bool(codes)
+            if 22 in codes:
+                res.violations.append(dict(signature='C14/expired-key-never-reaccepted', what='the stamped history contains a "duplicate" answered more than 7 windows after the expiry of the entry it hit (C14_timely_trace_fresh bounds this by p + 3d; documented: half a window)',
+                                           case=describe_conc(case, st)))
             if 20 in codes:
                 res.violations.append(dict(signature='C14/timed-set-rejected', what='the stamped history of IsDuplicate answers and deletions is rejected by the timed-set specification (two "new" answers for one key inside a window, a duplicate without cause, a deletion before expiry, or an expired key left behind by a sweep)',
                                            case=describe_conc(case, st)))
             if 21 in codes:
                 res.violations.append(dict(signature='C14/recorded-but-not-delivered', what='a message whose key was recorded as new did not reach the handler / the inner publisher (or a duplicate did): later messages with that key are dropped although none got through',
                                            case=describe_conc(case, st)))
+            if i in mis and problems:
+                mis[i] = [k for k in mis[i] if k in (1, 5)]   # with clock problems only a rejected label and the outcomes still mean something
+                if not mis[i]:
+                    del mis[i]
             if i in mis:
                 if 5 in mis[i] and not codes:
                     res.violations.append(dict(signature='C14/outcome-differs', what='a middleware / decorator call did not do what the property says with the repository\'s answer (duplicates dropped as successes without invoking, everything else passed through unchanged)',
                                                case=describe_conc(case, st)))
-                res.mismatches.append(dict(kind='Corr.C14.conc_replay (Dedup/Model.v vs deduplicator.go): ' + '; '.join(CODES.get(k, str(k)) for k in mis[i]),
-                                           explained_by_violation=bool(codes) or 5 in mis[i], case=describe_conc(case, st)))
+                rec = dict(kind='Corr.C14.conc_replay (Dedup/Model.v vs deduplicator.go): ' + '; '.join(CODES.get(k, str(k)) for k in mis[i]),
+                           explained_by_violation=bool(codes) or 5 in mis[i], case=describe_conc(case, st))
+                if 1 in mis[i] and (not codes or os.environ.get('C14_SEARCH_ALWAYS')) and len(searched) < 3:
+                    # the implementation made a step the model does not have and no acceptor objects:
+                    # search the model (with that liberty) for the shortest continuation that violates the property
+                    searched.append(1)
+                    try:
+                        sr = C.coq_eval(pid, '%s_search_%d_%d' % (name, part, i), HEADER + 'Definition c : conc_case := %s.\n' % chunk[i][1],
+                                        [('R_s', 'conc_search 8 c')], timeout=300)['R_s']
+                        idx, thr1, cont = sr
+                        rec['model_side_search'] = dict(
+                            rejected_label_index=idx, rejected_thread=thr1 - 1 if thr1 else None, depth=8,
+                            shortest_violating_continuation=[('thread %d steps' % t) for t in cont] or None,
+                            note=('from the last state on which model and implementation agree, letting the rejected step happen (mutex forced free), this '
+                                  'continuation makes the timed-set specification reject the trace: a prediction of how the deviation breaks the property, not a failing input')
+                                 if cont else 'no continuation of at most 8 steps of the threads involved violates the specification')
+                    except Exception as e:
+                        rec['model_side_search'] = dict(error=str(e)[-300:])
+                res.mismatches.append(rec)
     # the API-level history of every case (also of those whose stamps could not be mapped)
     apic = [c for c in cases if not c.get('panicked')]
     for part, chunk in enumerate(C.chunks(apic, 30)):
